@@ -289,6 +289,16 @@ DeleteWebentityReq(st, weid, prefixes) ==    \* check_for_corruption = True
   IN IF bad THEN Res(st, 0, <<>>, "TraphException")
      ELSE Res(UnsetWes(st, [j \in 1..Len(ps) |-> LruNode(st.trie, ps[j])], 1), 0, <<>>, "")
 
+(* delete_webentity(weid, prefixes, check_for_corruption=False): the id is ignored; a prefix *)
+(* that cannot be found makes the loop fail (AttributeError on None) after the earlier ones   *)
+RECURSIVE UnsetUnchecked(_, _, _)
+UnsetUnchecked(st, ps, i) ==
+  IF i > Len(ps) THEN Res(st, 0, <<>>, "")
+  ELSE LET n == LruNode(st.trie, ps[i]) IN
+       IF n = 0 THEN Res(st, 0, <<>>, "AttributeError")
+       ELSE UnsetUnchecked(WT(st, n, [st.trie[n] EXCEPT !.we = 0]), ps, i + 1)
+DeleteWebentityUncheckedReq(st, prefixes) == UnsetUnchecked(st, DedupSeq(prefixes), 1)
+
 AddPrefixReq(st, prefix, weid) ==
   LET r == AddLru(st, prefix, TRUE) IN
   IF r.st.trie[r.node].we # 0 THEN Res(r.st, 0, <<>>, "TraphException")
